@@ -369,13 +369,24 @@ def in_known_class(case):
     return not case["drain"]
 
 
+class _SlowSink(__import__("logging").Handler):
+    """Swallows the sender's log records, but takes its time over ERROR
+    records the way a terminal or a log file does: the library logs from its
+    reader thread *between* two updates of shared state, and a handler that
+    returns instantly would hide the interleavings a real sink produces."""
+
+    def emit(self, record):
+        if record.levelno >= 40:
+            time.sleep(0.002)
+
+
 def _quiet():
     # the sender logs every lost connection at ERROR level; without a handler
     # Python's last-resort handler would print hundreds of lines to stderr
     import logging
     lg = logging.getLogger("gscrib")
-    if not any(isinstance(h, logging.NullHandler) for h in lg.handlers):
-        lg.addHandler(logging.NullHandler())
+    if not any(isinstance(h, _SlowSink) for h in lg.handlers):
+        lg.addHandler(_SlowSink())
 
 
 def replay(case):
